@@ -33,7 +33,7 @@ CHECKS = {
          'DESIGN.md section 5, C14'),
  'C02': ('model_checking',
          'explicit-state exploration of analysis histories (event sequences) x processing orders on the real System; invariants I1-I8 evaluated on every reached state',
-         'Every history of up to 3 (thorough 4) events over a 42-event alphabet (define, redefine as class/function/variable, nest, documented-only field, instance attribute, re-export move / renamed / star / by sibling, local definition in the re-exporter, consumers, in-module subclass, two kinds of import cycle, zope implementer) is turned into a 3-module project and built by the real System in both processing orders of the siblings (thorough: 222 300 executions, 10 413 distinct final states). On every final state the nine invariants of the statement are evaluated: registry keys = current qualified names, each object once; contents/parent agreement; parent chains rooted and registered; non-entries are superseded duplicates; kinds fit places; MRO head/once; subclasses = inverse of bases; implements/implementedby; distinct page names. Failing histories are delta-minimised to the events that matter.',
+         'Every history of up to 3 (thorough 4) events over a 42-event alphabet (define, redefine as class/function/variable, nest, documented-only field, instance attribute, re-export move / renamed / star / by sibling, local definition in the re-exporter, consumers, in-module subclass, two kinds of import cycle, zope implementer) is turned into a 3-module project and built by the real System in both processing orders of the siblings (quick: 151 788 executions, 11 856 distinct final states; thorough: 6 375 180 executions, 158 904 distinct final states). On every final state the nine invariants of the statement are evaluated: registry keys = current qualified names, each object once; contents/parent agreement; parent chains rooted and registered; non-entries are superseded duplicates; kinds fit places; MRO head/once; subclasses = inverse of bases; implements/implementedby; distinct page names. Failing histories are delta-minimised to the events that matter.',
          'Trusted: the invariant evaluator (120 lines); the event alphabet; in-memory module builds (the on-disk path is cross-checked by C06/C07).',
          'DESIGN.md section 5, C02'),
  'C06': ('model_checking',
